@@ -102,8 +102,10 @@ func (c *Ctx) policyFn() *ssa.Function {
 }
 
 func (c *Ctx) rootGlobal(name string) *ssa.Global {
-	g, _ := c.P.SPkg("").Members[name].(*ssa.Global)
-	return g
+	if g, ok := c.P.SPkg("").Members[name].(*ssa.Global); ok {
+		return g
+	}
+	return rootGlobalAlias[name]
 }
 
 // varargElems returns the values stored into the array behind a variadic
@@ -1328,7 +1330,7 @@ func cmd6(c *Ctx) {
 				continue
 			}
 			f := ir.Static(av)
-			if f == nil || f.Name() != "isAlias" || len(av.Call.Args) != 2 || av.Call.Args[0] != sub {
+			if f == nil || f != c.fnOpt("", "Cmd.isAlias") || len(av.Call.Args) != 2 || av.Call.Args[0] != sub {
 				continue
 			}
 			if ir.HoldsAt(av, true, cv.Block()) {
@@ -1498,7 +1500,7 @@ func cmd7(c *Ctx) {
 					continue
 				}
 				f := ir.Static(av)
-				if f == nil || f.Name() != "isAlias" || len(av.Call.Args) != 2 || av.Call.Args[1] != tok {
+				if f == nil || f != c.fnOpt("", "Cmd.isAlias") || len(av.Call.Args) != 2 || av.Call.Args[1] != tok {
 					continue
 				}
 				if sl, isR := rangeElem(av.Call.Args[0]); isR {
